@@ -65,6 +65,14 @@ for pn, sn in ((0, 0), (1, 1), (2, 1)):
            "find_ips", funcs=["multidecoder.decoders.network.find_ips", "multidecoder.decoders.network.parse_ip"],
            name=f"ip_p{pn}_s{sn}", timeout=400 if pn == 0 else 1500, tier="both" if pn < 1 else "thorough")
 
+# an address at offset 0: what FOLLOWS it (free bytes after a delimiter) has no influence
+def _ip0(data):
+    return exactly_one(find_ips, data, 0, 7, "network.ip", list(b"9.2.3.4"), "find_ips"), True
+
+
+_add("ip_at_offset_0_free_suffix", Tmpl(b"9.2.3.4", (1, "ip_neutral"), 3), _ip0, timeout=600,
+     funcs=["multidecoder.decoders.network.find_ips"], extra_pre="not (48 <= h1 <= 57 and h2 == 46)")
+
 # domain: letters-digits-hyphen, >= 7 characters, .com
 for pn, sn in ((0, 0), (1, 1), (2, 2)):
     _embed(find_domains, "network.domain", pn, sn, "dom_neutral_l", "dom_neutral_r", [b"ex", (2, "lower"), b"le", (1, "digit"), b".com"],
